@@ -26,5 +26,5 @@ for i in ids:
             matrix.setdefault(i, {})[p] = {"rc": r.returncode, "violations": len(viol), "first": kinds[0] if kinds else None, "s": round(time.time() - t0, 1)}
             print(i, p, r.returncode, len(viol), kinds[:1], flush=True)
     finally:
-        subprocess.run("git -C %s checkout -- ." % REPO, shell=True)
+        subprocess.run("git -C %s checkout -- . && git -C %s clean -fdq" % (REPO, REPO), shell=True)
     json.dump(matrix, open(out_path, "w"), indent=1, sort_keys=True)
